@@ -23,6 +23,10 @@ const START_BYTES: usize = 5;
 /// Maximum number of bytes to buffer while reading the header.
 const MAX_TMP_LEN: usize = MAX_HEADER_LEN + START_BYTES;
 
+/// Verification hook: exposes the buffer/header constants above.
+#[cfg(lzma_rs_verif)]
+pub(crate) const VERIF_CONSTS: [usize; 4] = [MAX_TMP_LEN, MIN_HEADER_LEN, MAX_HEADER_LEN, START_BYTES];
+
 /// Internal state of this streaming decoder. This is needed because we have to
 /// initialize the stream before processing any data.
 #[derive(Debug)]
